@@ -199,4 +199,104 @@ theorem shortenLine_fits (w : Nat) (ws : List (List Char)) (hgood : ∀ wd ∈ w
     simp only [hd, this, hfit]
     simp
 
+
+
+/-- the placeholder loop keeps a prefix of the line's chunks (it only ever drops chunks from the end) and appends the
+    placeholder, or returns the bare placeholder -/
+theorem placeholderLoop_shape (w : Nat) : ∀ (cur : List (List Char)) (len : Nat),
+    placeholderLoop w cur len = "[...]".toList ∨
+      ∃ k, k < cur.length ∧ placeholderLoop w cur len = (cur.drop k).reverse.flatten ++ shortenPlaceholder
+  | [], _ => Or.inl rfl
+  | c :: rest, len => by
+    simp only [placeholderLoop]
+    split
+    · exact Or.inr ⟨0, by simp, rfl⟩
+    · rcases placeholderLoop_shape w rest (len - c.length) with h | ⟨k, hk, h⟩
+      · exact Or.inl h
+      · exact Or.inr ⟨k + 1, by simp; omega, by simpa using h⟩
+
+
+/-- a prefix of the chunks whose last chunk may have been cut short -/
+def CutPrefix (pre chunks : List (List Char)) : Prop :=
+  ∃ n, pre = chunks.take n ∨ ∃ m, pre = chunks.take n ++ [(chunks.getD n []).take m]
+
+theorem cutPrefix_take (pre chunks : List (List Char)) (h : CutPrefix pre chunks) (k : Nat) : CutPrefix (pre.take k) chunks := by
+  obtain ⟨n, h | ⟨m, h⟩⟩ := h
+  · subst h
+    exact ⟨min k n, Or.inl (by rw [List.take_take])⟩
+  · subst h
+    by_cases hk : k ≤ (chunks.take n).length
+    · refine ⟨min k n, Or.inl ?_⟩
+      rw [List.take_append_of_le_length hk, List.take_take]
+    · have : (chunks.take n ++ [(chunks.getD n []).take m]).take k = chunks.take n ++ [(chunks.getD n []).take m] := by
+        apply List.take_of_length_le
+        simp only [List.length_append, List.length_cons, List.length_nil]
+        omega
+      rw [this]
+      exact ⟨n, Or.inr ⟨m, rfl⟩⟩
+
+theorem cutPrefix_dropLast (pre chunks : List (List Char)) (h : CutPrefix pre chunks) : CutPrefix pre.dropLast chunks := by
+  rw [List.dropLast_eq_take]
+  exact cutPrefix_take pre chunks h _
+
+theorem fitLoop_prefix (w : Nat) (chunks : List (List Char)) :
+    (fitLoop w [] 0 chunks).1 = chunks.take (fitLoop w [] 0 chunks).1.length ∧
+    (fitLoop w [] 0 chunks).2.2 = chunks.drop (fitLoop w [] 0 chunks).1.length := by
+  have h := (fitLoop_spec w chunks [] 0 rfl (Nat.zero_le _)).2.2
+  simp only [List.nil_append] at h
+  generalize (fitLoop w [] 0 chunks).1 = a at h ⊢
+  generalize (fitLoop w [] 0 chunks).2.2 = b at h ⊢
+  subst h
+  simp
+
+theorem longWord_cutPrefix (w : Nat) (chunks : List (List Char)) :
+    CutPrefix (longWord w (fitLoop w [] 0 chunks).1 (fitLoop w [] 0 chunks).2.1 (fitLoop w [] 0 chunks).2.2).1 chunks := by
+  obtain ⟨h1, h2⟩ := fitLoop_prefix w chunks
+  generalize (fitLoop w [] 0 chunks).1 = cur at h1 h2
+  generalize (fitLoop w [] 0 chunks).2.1 = len
+  generalize hr : (fitLoop w [] 0 chunks).2.2 = rest at h2
+  cases rest with
+  | nil => exact ⟨cur.length, Or.inl (by simpa [longWord] using h1)⟩
+  | cons c r =>
+    simp only [longWord]
+    split
+    · refine ⟨cur.length, Or.inr ⟨w - len, ?_⟩⟩
+      have hc : chunks.getD cur.length [] = c := by
+        have : (chunks.drop cur.length).head? = some c := by rw [← h2]; rfl
+        rw [List.head?_drop] at this
+        simp [List.getD, this]
+      simp only
+      rw [hc, ← h1]
+    · exact ⟨cur.length, Or.inl h1⟩
+
+/-- **the shape of every result**: nothing, the bare placeholder, or a prefix of the normalised text's chunks (the last one
+    possibly cut, when a single word is longer than the width) - followed by the placeholder when something was left out -/
+theorem shortenLine_shape (w : Nat) (chunks : List (List Char)) :
+    shortenLine w chunks = [] ∨ shortenLine w chunks = "[...]".toList ∨
+      ∃ pre, CutPrefix pre chunks ∧ (shortenLine w chunks = pre.flatten ∨ shortenLine w chunks = pre.flatten ++ shortenPlaceholder) := by
+  have hlw := longWord_cutPrefix w chunks
+  unfold shortenLine
+  simp only
+  generalize (longWord w (fitLoop w [] 0 chunks).1 (fitLoop w [] 0 chunks).2.1 (fitLoop w [] 0 chunks).2.2) = lw at hlw ⊢
+  have hcur : CutPrefix (dropBlank lw.1) chunks := by
+    unfold dropBlank
+    cases lw.1.getLast? with
+    | none => exact hlw
+    | some l =>
+      simp only
+      split
+      · exact cutPrefix_dropLast _ _ hlw
+      · exact hlw
+  generalize dropBlank lw.1 = cur at hcur ⊢
+  split
+  · exact Or.inl rfl
+  · split
+    · exact Or.inr (Or.inr ⟨cur, hcur, Or.inl rfl⟩)
+    · rcases placeholderLoop_shape w cur.reverse (totalLen cur) with h | ⟨k, _, h⟩
+      · exact Or.inr (Or.inl h)
+      · refine Or.inr (Or.inr ⟨cur.take (cur.length - k), cutPrefix_take _ _ hcur _, Or.inr ?_⟩)
+        rw [h]
+        congr 2
+        rw [List.drop_reverse, List.reverse_reverse]
+
 end Bql
